@@ -96,6 +96,8 @@ pub fn run(args: &[String]) -> Vec<String> {
     let races = arg_usize(args, "--races", 6);
     let mut rng = Rng::new(seed);
     let mut out = Vec::new();
+    // every wait()/eof() call ends by itself (100 ms time-outs): a call that never returns is a finding
+    let _wd = deadline(120 + 5 * races as u64, "waits: a wait()/eof() call on a real stream never returned (waits must time out)".to_string());
 
     // ---- sequential grid: verdict of one completed call in a quiescent state.
     for used in [0usize, 1, 2, 5, 4095, 4096] {
